@@ -599,6 +599,11 @@ class Body:
         assert t["k"] == "switch"
         return self.cond_atom(t["d"])
 
+    def label_for(self, s, v):
+        """label of the edge switch `s` takes when its discriminant is v"""
+        vals = [x for x, _ in self.term(s)["targets"]]
+        return v if v in vals else "otherwise"
+
     def bool_edge_label(self, s, truth):
         """label of the edge of bool switch `s` taken when the discriminant is `truth`"""
         t = self.term(s)
@@ -834,7 +839,7 @@ def _find_selects(body):
 
 
 class Guard:
-    __slots__ = ("s", "label", "atom", "pol", "truth", "via_select", "avoid")
+    __slots__ = ("s", "label", "atom", "pol", "truth", "via_select", "avoid", "listed")
 
     def __init__(self, body, s, label, via_select=None, avoid=()):
         self.s = s
@@ -844,6 +849,7 @@ class Guard:
         # truth: value of the switch discriminant on this edge (bool switches)
         self.truth = None
         vals = [v for v, _ in t["targets"]]
+        self.listed = vals
         if t["dty"] == "bool":
             if label == 0:
                 raw = False
@@ -854,6 +860,15 @@ class Guard:
             self.truth = raw if self.pol else (not raw)
         self.via_select = via_select
         self.avoid = tuple(avoid)
+
+    def is_value(self, v, nvariants=2):
+        """on this edge the switch discriminant equals v (explicit target, or the otherwise edge when v is
+        the only value left among `nvariants`)"""
+        if self.label == v:
+            return True
+        if self.label == "otherwise" and v not in self.listed and len(self.listed) == nvariants - 1 and 0 <= v < nvariants:
+            return True
+        return False
 
     def is_call(self, rx, recv=None):
         if self.atom[0] != "call":
